@@ -6,7 +6,7 @@ from typing import Any, Dict, List, Optional, Set, Tuple
 
 from ..core import AnalysisError, Report
 from ..names import fixed_text_of_fstring, identifier_alphabet, label_table_writers
-from ..pyfacts import Repo, cc, cn, inline_pure_temps, calls, dotted, norm, walk_no_nested
+from ..pyfacts import Repo, cc, cn, expand_private_calls, inline_pure_temps, spread_literal_sequences, calls, dotted, norm, walk_no_nested
 from .c02 import _isinstance_chain
 
 PRE = 'flipjump/assembler/preprocessor.py'
@@ -49,9 +49,15 @@ def rule_rename_first(rep: Report, repo: Repo) -> None:
         ok = ok and arg == ['hygienic_iterator']
     rep.check(ok, 'C03.RENAME-FIRST', 'hygienic-name', txt[:140], f'{PRE}:{br[0].lineno}',
               expected='prefix + position + non-identifier marker + iterator name')
-    rn = repo.func(OPS, 'RepCall.rename_iterator')
+    rn = expand_private_calls(repo, OPS, repo.func(OPS, 'RepCall.rename_iterator'), 'RepCall', depth=2)
     d = [norm(st.value) for st in rn.body if isinstance(st, ast.Assign) and norm(st.targets[0]) == 'rename_dict']
-    args = [norm(a) for c in calls(rn) if dotted(c.func) == 'RepCall' for a in c.args]
+    # constructor arguments, read through locals that are bound once
+    once = {}
+    for st in ast.walk(rn):
+        if isinstance(st, ast.Assign) and len(st.targets) == 1 and isinstance(st.targets[0], ast.Name):
+            once.setdefault(st.targets[0].id, []).append(norm(st.value))
+    args = [(once[a.id][0] if isinstance(a, ast.Name) and len(once.get(a.id, [])) == 1 and a.id != 'rename_dict' else norm(a))
+            for c in calls(rn) if dotted(c.func) == 'RepCall' for a in c.args]
     ok = d == ['{self.iterator_name: Expr(new_iterator_name)}'] and args[:3] == ['self.repeat_times', 'new_iterator_name', 'self.macro_name.name'] \
         and '[expr.eval_new(rename_dict) for expr in self.arguments]' in args
     rep.check(ok, 'C03.RENAME-FIRST', 'RepCall.rename_iterator', f'{d} -> RepCall({args[:4]})', f'{OPS}:{rn.lineno}',
@@ -109,6 +115,8 @@ def rule_subst_complete(rep: Report, repo: Repo) -> None:
             continue
         n_classes += 1
         ev, init = meths['eval_new'], meths['__init__']
+        # read through private helpers (a `_derive(..)` constructor helper) and literal-sequence spellings of the operand list
+        ev = spread_literal_sequences(expand_private_calls(repo, OPS, ev, cls.name, depth=2))
         if not ev.args.args[1:]:
             raise AnalysisError(f'{cls.name}.eval_new has no dictionary parameter')
         dic = ev.args.args[1].arg
@@ -169,10 +177,16 @@ def rule_subst_complete(rep: Report, repo: Repo) -> None:
                         conj = n.test.values if isinstance(n.test, ast.BoolOp) and isinstance(n.test.op, ast.And) else [n.test]
                         guard |= {norm(x) for x in conj}
                 need = set()
+                missing = []
                 for f, kind in fields:
                     loc = [k for k, v in bound.items() if v == want.get(f)]
-                    need.add(f'{loc[0]} is self.{f}' if loc and kind == 'Expr' else f'<{f} unchanged>')
-                rep.check(need <= guard, 'C03.SUBST-COMPLETE', f'{cls.name}.eval_new:return self', f'guard {sorted(guard)}',
+                    alts = {f'{l_} is self.{f}' for l_ in loc} | {f'self.{f} is {l_}' for l_ in loc}
+                    if kind == 'Expr':
+                        alts |= {f'{want[f]} is self.{f}', f'self.{f} is {want[f]}'}
+                    need.add(sorted(alts)[0] if alts else f'<{f} unchanged>')
+                    if kind != 'Expr' or not (alts & guard):
+                        missing.append(f)
+                rep.check(not missing, 'C03.SUBST-COMPLETE', f'{cls.name}.eval_new:return self', f'guard {sorted(guard)}',
                           f'{OPS}:{r.lineno}', expected=f'{sorted(need)}')
                 continue
             rep.fail('C03.SUBST-COMPLETE', f'{cls.name}.eval_new:return {txt[:40]}', 'returns neither the substituted op nor self',
@@ -242,10 +256,11 @@ def rule_rel_names(rep: Report, repo: Repo) -> None:
     rep.check(not bad, 'C03.REL-NAMES', 'dot_id_re:language', f'{len(want_in)} member / {len(want_out)} non-member shapes; wrong: {bad[:6]}',
               f'{PARSER} dot_id_re', expected='k leading dots (k = 1..6) + dotted identifiers are DOT_ID tokens; a bare identifier is not')
     # (c) the resolver: the rejection bound and the number of dropped levels are the same quantity
-    f = repo.func(PARSER, 'FJParser.base_name_to_ns_full_name')
+    f0 = repo.func(PARSER, 'FJParser.base_name_to_ns_full_name')
+    f = inline_pure_temps(f0)          # named quantities (the dot count, the depth, the levels to climb) read as what they name
     from ..linexpr import Env, lin_show, py_ir, to_lin
     lin = lambda e: lin_show(to_lin(py_ir(e), Env({})))
-    nd = [norm(st.value) for st in f.body if isinstance(st, ast.Assign) and norm(st.targets[0]) == 'num_of_dots']
+    wd = [norm(st.value) for st in ast.walk(f0) if isinstance(st, ast.Assign) and norm(st.targets[0]) == 'without_dots']
     # rejection: `A > B` (or `B < A`) with A - B == num_of_dots - 1 - depth
     guards = []
     for n in ast.walk(f):
@@ -259,8 +274,9 @@ def rule_rel_names(rep: Report, repo: Repo) -> None:
               if isinstance(x, ast.Subscript) and norm(x.value) == 'curr_namespace' and isinstance(x.slice, ast.Slice) and x.slice.upper is not None
               and x.slice.lower is None]
     rets = uppers
-    ok = (nd == ['len(base_name) - len(without_dots)'] and '-len(curr_namespace) + num_of_dots - 1' in guards
-          and uppers == ['len(curr_namespace) - num_of_dots + 1'])
+    # with k = len(base_name) - len(without_dots) leading dots:  reject iff k - 1 - depth > 0 ; keep depth - (k - 1) levels
+    ok = (wd == ["base_name.lstrip('.')"] and lin(ast.parse('len(base_name) - len(without_dots) - 1 - len(curr_namespace)', mode='eval').body) in guards
+          and uppers == [lin(ast.parse('len(curr_namespace) - (len(base_name) - len(without_dots)) + 1', mode='eval').body)])
     rep.check(ok, 'C03.REL-NAMES', 'resolver', f'guards {guards}; returns {rets}', f'{PARSER}:{f.lineno}',
               expected='k dots drop k-1 levels; an error only when k-1 exceeds the depth')
 
@@ -268,7 +284,7 @@ def rule_rel_names(rep: Report, repo: Repo) -> None:
 def synthetic_families(repo: Repo) -> List[Tuple[str, str, str, ast.AST]]:
     """(family, rel, fixed text, node) for every synthetic name that enters a dictionary shared with user identifiers."""
     out: List[Tuple[str, str, str, ast.AST]] = []
-    gp = repo.func(PRE, 'get_params_dictionary')
+    gp = inline_pure_temps(repo.func(PRE, 'get_params_dictionary'))      # a hoisted prefix local reads like the f-string it names
     for c in calls(gp):
         if dotted(c.func) == 'Expr' and c.args and isinstance(c.args[0], ast.JoinedStr):
             out.append(('local-label', PRE, fixed_text_of_fstring(c.args[0], repo, PRE), c))
